@@ -383,7 +383,16 @@ impl<R: BufRead> LosslessDecoder<R> {
                 if one_symbol >= alphabet_size {
                     return Err(DecodingError::BitStreamError);
                 }
-                Ok(HuffmanTree::build_two_node(zero_symbol, one_symbol))
+                // Both symbols get code length 1, so the canonical code gives the shorter word to
+                // the smaller symbol, and a repeated symbol is a single zero-length code.
+                if zero_symbol == one_symbol {
+                    Ok(HuffmanTree::build_single_node(zero_symbol))
+                } else {
+                    Ok(HuffmanTree::build_two_node(
+                        zero_symbol.min(one_symbol),
+                        zero_symbol.max(one_symbol),
+                    ))
+                }
             }
         } else {
             let mut code_length_code_lengths = vec![0; CODE_LENGTH_CODES];
